@@ -508,3 +508,11 @@ def instances(tier):
         out.append(quantile_instance(5, 0.1))
     out.append(bounded_masks_instance())
     return out
+
+
+_instances_before_simplex = instances
+
+
+def instances(tier):       # noqa: F811
+    from .common import simplex_lemma_instances
+    return _instances_before_simplex(tier) + simplex_lemma_instances('C18')
